@@ -51,7 +51,6 @@ pub fn receipt_ref(x: u8) -> CausalTickReceiptRef {
 // ---------------------------------------------------------------------------------------------
 
 const MAGIC_V1: &[u8; 8] = b"EINGR001";
-const MAGIC_V2: &[u8; 8] = b"EINGR002";
 
 fn ingress_targets() -> Vec<(&'static str, IngressTarget)> {
     vec![
@@ -62,7 +61,35 @@ fn ingress_targets() -> Vec<(&'static str, IngressTarget)> {
     ]
 }
 
-pub fn ingress_samples(_thorough: bool) -> Vec<SampleT<IngressEnvelope>> {
+/// The version magic is part of the codec's identity (DESIGN C12): a decoded envelope is paired
+/// with the form it was read from, so the documented EINGR001 migration reader is not a "second
+/// encoding of the same value".
+#[derive(Debug, Clone, Copy, PartialEq, Eq)]
+pub enum IngressForm {
+    LegacyV1,
+    V2,
+}
+
+pub fn ingress_samples(thorough: bool) -> Vec<SampleT<(IngressForm, IngressEnvelope)>> {
+    ingress_samples_plain(thorough)
+        .into_iter()
+        .map(|s| SampleT {
+            label: s.label,
+            value: (IngressForm::V2, s.value),
+            expect: None,
+            in_domain: s.in_domain,
+            variants: s.variants.into_iter().map(|(l, v)| (l, (IngressForm::V2, v))).collect(),
+        })
+        .collect()
+}
+
+fn ingress_decode(b: &[u8]) -> Result<(IngressForm, IngressEnvelope), warp_core::IngressEnvelopeDecodeError> {
+    let e = IngressEnvelope::from_retained_bytes(b)?;
+    let form = if b.len() >= 8 && &b[..8] == MAGIC_V1 { IngressForm::LegacyV1 } else { IngressForm::V2 };
+    Ok((form, e))
+}
+
+pub fn ingress_samples_plain(_thorough: bool) -> Vec<SampleT<IngressEnvelope>> {
     let mut out = Vec::new();
     let kind = make_intent_kind("verif/c12");
     let p = |x: u8| IngressCausalParent::TickReceipt { receipt_ref: receipt_ref(x) };
@@ -98,9 +125,10 @@ pub fn ingress_samples(_thorough: bool) -> Vec<SampleT<IngressEnvelope>> {
 /// Re-encode a decoded envelope in the version the input used: v2 through the real writer; the
 /// legacy EINGR001 form through the canonical form its own reader defines (v2 writer bytes with
 /// the v1 magic; only parentless envelopes are admitted by that reader).
-fn ingress_encode(v: &IngressEnvelope, hint: &[u8]) -> Result<Vec<u8>, String> {
+fn ingress_encode(fv: &(IngressForm, IngressEnvelope), _hint: &[u8]) -> Result<Vec<u8>, String> {
+    let (form, v) = fv;
     let mut b = v.to_retained_bytes_v2();
-    if hint.len() >= 8 && &hint[..8] == MAGIC_V1 {
+    if *form == IngressForm::LegacyV1 {
         if !v.causal_parents().is_empty() {
             return Err("legacy form cannot carry causal parents".into());
         }
@@ -315,7 +343,7 @@ pub fn codecs() -> Vec<Codec> {
         true,
         81,
         "crates/warp-core/src/head_inbox.rs: IngressEnvelope::to_retained_bytes_v2/from_retained_bytes (EINGR002, legacy EINGR001)",
-        |b: &[u8]| IngressEnvelope::from_retained_bytes(b),
+        ingress_decode,
         ingress_encode,
         ingress_samples,
     ));
